@@ -20,6 +20,12 @@ Defects found by this check:
       round of _decode_*_list starts with b'\n' and the DER sniffing (startswith 0x30) misses a DER key appended
       right after a PEM / RFC 4716 block with asyncssh's own append_private_key/append_public_key.
       Lean witness: Props/C15.lean der_after_pem_is_dropped.
+  * model-faithfulness audit (layers the model keeps abstract; oracle legs in _c15_audit.py, signatures there):
+      EC public key with a compressed point, bytes passphrase under the PKCS#12 KDF, NUL in the comment of an
+      OpenSSH private key (Lean: openssh_export_refuses_nul_comment, openssh_exported_comment_is_cstring, witness
+      openssh_prefix_wrote_nul_comment; flag probed on the tree), RSA p = 1 in an OpenSSH container
+      (ZeroDivisionError), write_private_key / append_private_key file mode, long RFC 4716 comment line,
+      import_public_key of an OpenSSH private key file loses the comment.
 """
 
 from __future__ import annotations
@@ -38,6 +44,7 @@ from asyncssh import public_key as pkmod
 
 from props import _c15_codec as C
 from props import _c15_translate as T
+from props import _c15_audit as A
 from vlib import (Ctx, CorrResult, OracleResult, Failure, Disagreement, Hist, hx, unhx)
 
 warnings.filterwarnings('ignore')
@@ -481,17 +488,32 @@ def correspondence(ctx: Ctx) -> CorrResult:
 
     # (4) writers: the Lean model writes the same bytes as asyncssh -------------------------------
     kg = keygen_files(ctx)
+    mdir0 = ctx.tmpdir()
     second_pass: List[Tuple[str, Any, Any]] = []       # filled after the first driver pass
     for lab, key in keys:
         for comment in [b'', b'user@host', gen_comment(rng, text_safe=True), gen_comment(rng),
-                        rng.choice([b'two\nlines', b'\n', b'x\r\ny', b'tail\n', b'a\rb'])]:
+                        rng.choice([b'two\nlines', b'\n', b'x\r\ny', b'tail\n', b'a\rb']),
+                        rng.choice([b'a\x00b', b'\x00', b'tail\x00', b'\x00\x00', b'\x00lead'])]:
             k = fresh_copy(key)
             k.set_comment(comment)
+            refused = False
             try:
                 k.public_data, k.export_private_key('openssh')
+            except pkmod.KeyExportError:
+                refused = True      # the exporter reports that it cannot write this comment
             except Exception as e:
                 impl_raised('write:key-files', e, {'key': lab, 'comment': comment.hex()})
                 continue
+            # which comments the OpenSSH private key writer refuses, and (for the ones it writes) whether OpenSSH
+            # can load the file: the model's C-string rule against ssh-keygen itself
+            verdict = 'refused' if refused else 'written'
+            if not refused and lab == 'ed25519' and have_ssh_keygen():
+                cpath = write_file(os.path.join(mdir0, 'cs_%d' % len(lines)), k.export_private_key('openssh'))
+                rc, _o, _e = run_kg(['-y', '-P', '', '-f', cpath])
+                verdict += ' cstring' if rc == 0 else ' not-cstring'
+            add('write:openssh-private:comment' + (':nul' if b'\0' in comment else ''), 'osshcomment ' + hx(comment),
+                lambda model, verdict=verdict: (model if ' ' in verdict else model.split(' ')[0], verdict),
+                {'key': lab, 'comment': comment.hex()})
             for wname, wfmt, wline in [
                     ('write:openssh-public-line', 'openssh',
                      'publine %s %s %s' % (hx(k.algorithm), hx(k.public_data), hx(comment))),
@@ -501,6 +523,8 @@ def correspondence(ctx: Ctx) -> CorrResult:
                 except pkmod.KeyExportError:
                     exported = 'refused'          # KeyExportError: the exporter reports that it cannot write this
                 add(wname + (':newline-comment' if b'\n' in comment else ''), wline, exported)
+            if refused:
+                continue
             # OpenSSH private container: parse asyncssh's file with the Lean model, then rebuild it
             text = k.export_private_key('openssh')
             add('read:openssh-private:framing', 'match priv ' + hx(text),
@@ -796,6 +820,7 @@ def check_private_roundtrip(key: Any, lab: str, fmt: str, passphrase: Any, ciphe
         fails.append(Failure('comment-lost:private:%s' % fmt,
                              'comment %r came back as %r: %s' % (comment, k2.get_comment_bytes(), what), rep))
     if passphrase is not None:
+        fails += A.check_passphrase_types(key, lab, fmt, passphrase, cipher, hash_name, version, data)
         for wrong in (None, 'wrong', (passphrase + 'x') if isinstance(passphrase, str) else passphrase + b'x'):
             if wrong == passphrase:
                 continue
@@ -1351,6 +1376,13 @@ def oracle(ctx: Ctx) -> OracleResult:
     res.evaluations += en
     hist.hit('ec-point-forms', en)
 
+    # (g) layers the Lean model keeps abstract, found by the model-faithfulness audit: EC public points, bytes/str
+    #     passphrases, comments handed to ssh-keygen, corner-case key parameters, the library's own file writer,
+    #     long RFC 4716 comments, public key out of a private key file (see _c15_audit.py)
+    af, an = A.run_all(ctx, keys, d, rng, thorough, hist)
+    fails += af
+    res.evaluations += an
+
     # (a) private formats x ciphers x hashes x versions x passphrases x comments ------------------------------
     combos: List[Tuple[str, Any, str, str, int]] = []
     for fmt in PRIVATE_FORMATS:
@@ -1484,7 +1516,10 @@ def oracle(ctx: Ctx) -> OracleResult:
     # report precise signatures once each (most specific first; known limitations of text formats last)
     seen = set()
     ordered = sorted(fails, key=lambda f: (f.signature.startswith('comment-altered'),
-                                           f.signature.startswith('multi-key-file:der-after'), f.signature))
+                                           f.signature.startswith('multi-key-file:der-after'),
+                                           f.signature in ('comment-lost:public-from-private:openssh',
+                                                           'interop:ssh-keygen-rejects:public-rfc4716:long-comment-line'),
+                                           f.signature))
     for f in ordered:
         hist.hit('FAIL:' + f.signature)
         if f.signature not in seen:
@@ -1526,12 +1561,16 @@ def _key_from(rep: Dict[str, Any]) -> Any:
 
 
 def replay(ctx: Ctx, rep: Dict[str, Any]) -> List[Failure]:
-    if rep.get('replay', rep).get('kind') == 'ec-point-form':
+    if rep.get('replay', rep).get('kind') == 'ec-point-form' and \
+            not str(rep.get('replay', rep).get('container', '')).startswith('spki'):
         fs, _n = check_ec_point_forms(ctx.tmpdir())
         r0 = rep.get('replay', rep)
         return [f for f in fs if f.replay.get('form') == r0.get('form') and f.replay.get('container') == r0.get('container')]
     r = rep.get('replay', rep)
     kind = r.get('kind')
+    ar = A.replay(ctx, r)
+    if ar is not None:
+        return ar
     if kind == 'private-roundtrip':
         return check_private_roundtrip(_key_from(r), r['key_type'], r['format'], _unpp(r['passphrase']), r['cipher'],
                                        r['hash'], r['pbe_version'], bytes.fromhex(r['comment']))
